@@ -1,5 +1,5 @@
 """C10 - JSON encodings are valid JSON of the right shape and lose nothing."""
-import json, base64, datetime, math
+import re, json, base64, datetime, math
 import pandas as pd
 import vlib, uaconv, c08
 from vlib import Sym
@@ -194,6 +194,29 @@ def judge(v):
     if fails and cs: fails = [("C10/known:" + "+".join(sorted(cs)), f[0] + ": " + f[1]) for f in fails]
     return out, fails
 
+# ---------------------------------------------------------------- the model's JSON reader against json.loads
+class _Reject(Exception): pass
+def py_tree(text):
+    """json.loads with number literals kept as text and members in order, in the wire form of R_C10.e_jv; None when it refuses the text.
+    The model's reader knows no whitespace between tokens and no NaN/Infinity constants, so those are refused here as well."""
+    def const(c): raise _Reject(c)
+    def conv(x):
+        if x is None: return ["null"]
+        if x is True or x is False: return ["bool", "true" if x else "false"]
+        if isinstance(x, tuple) and x[0] == "num": return ["num", x[1]]
+        if isinstance(x, tuple) and x[0] == "obj": return ["obj", [[k, conv(v)] for k, v in x[1]]]
+        if isinstance(x, str): return ["str", x]
+        if isinstance(x, list): return ["arr", [conv(y) for y in x]]
+        raise _Reject(type(x).__name__)
+    try:
+        t = json.loads(text, parse_float=lambda n: ("num", n), parse_int=lambda n: ("num", n), parse_constant=const, object_pairs_hook=lambda kv: ("obj", kv))
+    except (ValueError, _Reject, RecursionError):
+        return None
+    # whitespace outside string literals: drop the literals, then look
+    bare = re.sub(r'"(?:[^"\\]|\\.)*"', '""', text, flags=re.S)
+    if any(ch in bare for ch in " \t\r\n"): return None
+    return conv(t)
+
 def check(ctx):
     rng = ctx.rng
     ctx.rule = ("random values of every supported class (as in C08) plus text with quotes, backslashes, control and non-ASCII characters, 64-bit extremes, Variants of every "
@@ -203,7 +226,7 @@ def check(ctx):
                    "external: float(int) with repr of the result for the 64-bit encoders (a table supplied by the harness)",
                    "str() of list elements other than numbers, booleans, strings and NodeIds (bytes, datetimes, nested tuples) is outside the model (Unsupported, skipped)",
                    "extraction + driver.ml, cross-checked against vm_compute on a sample"]
-    reqs = []; meta = []
+    reqs = []; meta = []; dreqs = []; preqs = []
     from opcua_tools import ua_data_types as T
     # a fixed corpus that runs first: values that compare equal but must be written differently (anything keyed by == would confuse them)
     corpus = [T.UADouble(-0.0), T.UADouble(0.0), T.UAFloat(0.0), T.UAFloat(-0.0), T.UADouble(1), T.UADouble(1.0), T.UAEURange(low=-0.0, high=0.0), T.UAEURange(low=0.0, high=-0.0),
@@ -215,6 +238,8 @@ def check(ctx):
         out, fails = judge(v)
         sx = to_jsx(v)
         reqs.append([Sym("c10_json"), ext_table(v), sx]); meta.append((v, out))
+        dreqs.append([Sym("c10_domain"), sx])
+        preqs.append([Sym("c10_parse"), out[1][0] if out[0] == "ok" and out[1] else ""])
         s = repr(v)
         ctx.record(canon_sx(sx), any(ch in s for ch in '"\\{[') or "NA" in s or "nan" in s or "inf" in s or "Int64" in s, [type(v).__name__])
         for sig, detail in fails: ctx.fail(sig, dict(kind="py", expr=repr_expr(v)), detail)
@@ -227,6 +252,25 @@ def check(ctx):
         io = out if out[0] == "ok" else ["err"]
         if io != mo: ctx.disagree("json", canon_sx(to_jsx(v)), out, a)
     ctx.notes["unsupported_by_model"] = uns
+    # the reader of the model (M_C10r.jparse) on the texts the implementation returned: (a) it reads what json.loads reads, (b) for a value inside the
+    # theorems' domain (C10_parses_as_json, C10_variant_parses_as_json, C10_extension_object_parses) it reads exactly the shape the theorem names
+    dans = vlib.run_model(dreqs, shards=12); pans = vlib.run_model(preqs, shards=12)
+    indom = same = read = 0
+    for (v, out), d, pa in zip(meta, dans, pans):
+        if not (out[0] == "ok" and out[1]): continue
+        text = out[1][0]; d = vlib.untext(d); pa = vlib.untext(pa)
+        got = pa[0] if pa else None
+        want = py_tree(text)
+        known = bool(causes(v))
+        if got != want:
+            ctx.disagree("out-of-domain" if known else "reader", canon_sx(to_jsx(v)), ["json.loads", want], ["jparse", got])
+        elif got is not None: read += 1
+        if d[0] == "true":
+            indom += 1
+            if d[1] and got == d[1][0]: same += 1
+            else: ctx.disagree("out-of-domain" if known else "theorem-instance", canon_sx(to_jsx(v)), ["jparse of the implementation's text", got], ["shape", d[1]])
+    ctx.notes["json_reader"] = ("%d texts returned by the implementation were read by the model's JSON reader as json.loads reads them (numbers as literals, members in order); "
+                                "%d values lie in the domain of the C10 parse theorems and for %d of them the reader returned exactly the prescribed shape" % (read, indom, same))
     pick = sorted(rng.sample(range(len(reqs)), min(40 if ctx.quick() else 150, len(reqs))))
     pick = [i for i in pick if len(vlib.to_sx(reqs[i])) < 3000]
     ctx.crosscheck = vlib.coq_crosscheck([reqs[i] for i in pick], [ans[i] for i in pick], "c10")
